@@ -30,6 +30,9 @@ AcrhEchoTokens(r) == r.acrh.lines
 
 VARIABLES l, sem, pats, namesb, drift, stats
 vars == <<l, sem, pats, namesb, drift, stats>>
+\* The monitor is a deterministic chain, one state per consumed event: fingerprinting the position alone (cfg: VIEW TraceView)
+\* keeps validation linear however large `bad`, the references or the block grow.
+TraceView == l
 
 Ev(e) == l <= Len(Trace) /\ Trace[l].ev = e /\ l' = l + 1
 
@@ -77,7 +80,7 @@ Config == /\ Ev("Config")
           /\ pats' = PatsOf(Trace[l].sem)
           /\ namesb' = Trace[l].sem.hNamesb
           /\ UNCHANGED <<drift, stats>>
-Skip == /\ l <= Len(Trace) /\ Trace[l].ev \in {"Rejected", "Panic", "Block", "EndBlock"} /\ l' = l + 1
+Skip == /\ l <= Len(Trace) /\ Trace[l].ev \in {"Rejected", "Panic", "Hang", "Block", "EndBlock"} /\ l' = l + 1
         /\ UNCHANGED <<sem, pats, namesb, drift, stats>>
 Serve == /\ Ev("Serve")
          /\ LET e == Trace[l] IN
